@@ -8,7 +8,7 @@
 From Coq Require Import String List NArith Bool.
 From Seccomp Require Import Words Machine Result Policy Spec Raw KernelState Skeleton Loader LoaderProofs
                             Installed InstalledProofs Sandbox SandboxProofs.
-From Gen Require Import GenSkeletons.
+From Gen Require Import GenSkeletons GenAmbient.
 From Props Require Import LoaderInst SandboxInst.
 Import ListNotations.
 Open Scope list_scope.
@@ -93,3 +93,13 @@ Theorem C15_nonvacuous :
   = (ref_prefix ++ [AYaml flag_policy_var true; AUnpack true; ALoad [filter_value gen_tsync] false; APrint], AExit 1).
 Proof. split; vm_compute; reflexivity. Qed.
 Print Assumptions C15_nonvacuous.
+
+
+(* Which policy the command loads is decided by its flags and the file they name: the regenerated list of references of
+   cmd/sandbox to the environment, to well-known places (the executable's directory, the working directory, home and
+   temporary directories), to the clock or the network (translator/ambient.go lists the names) is empty in the current
+   sources. The check also RUNS the command with every environment variable its sources could ask for pointing to a policy
+   that allows everything, and with permissive namesakes of a missing policy file in those places. *)
+Theorem C15_command_consults_only_flags_and_file : sandbox_ambient_refs = [].
+Proof. vm_compute. reflexivity. Qed.
+Print Assumptions C15_command_consults_only_flags_and_file.
